@@ -389,6 +389,10 @@ def _gram_schmidt(vectors):
             t = x * x
             n2 = t if n2 is None else n2 + t
         nrm = alg_sqrt(n2)
+        # contract: the input has full column rank (true for every matrix geometer passes to qr: it is built from a
+        # non-zero plane vector); the norm of each residual is therefore strictly positive
+        from .alg import _mark_positive
+        _mark_positive(nrm)
         basis.append([x / nrm for x in w])
     return basis
 
